@@ -20,7 +20,7 @@ TRUSTED_BASE = [
     'stages, _link_error_cb fan-out, close_link) at the granularity "one library transition function runs atomically"',
     'DetSched (harness/detsched.py): real threads, one at a time, hand-over only at blocking operations, virtual time; '
     'byte-code-level preemption inside a callback is NOT explored',
-    'scripted device harness/fakes/c02_device.py (platform v7, V2 TOCs, 0 memories)',
+    'scripted device harness/fakes/c02_device.py (platform v7, V2 TOCs, 0..4 memories incl. 1-wire deck memories with valid content)',
 ]
 ASSUMPTIONS = ['a thread runs until its next blocking operation (lock, event, queue, join, sleep, thread start)',
                'bounded time is checked as: no thread blocked without deadline on an unsatisfied condition after the '
@@ -60,6 +60,42 @@ def _cases(ctx, deep=False):
                               'script': [['open'], ['wait_packets', k], ['close'], ['reconnect']]})
                 cases.append({'cfg': dict(base), 'seed': rng.randrange(1 << 30),
                               'script': [['bg_close', k], ['sync_open'], ['sleep', 0.5], ['sync_close'], ['reconnect']]})
+    # devices with memories: the 1-wire (deck) memories are read inside the setup chain; fault at every point of
+    # it, then the SAME object must connect again to a healthy device
+    for mems in ([1], [0, 1], [1, 1]) if not ctx.thorough else ([1], [0, 1], [1, 1], [1, 0, 1, 1], [0]):
+        total = 41 + 2 * 5 + 4 + 2 + 6 * len(mems)
+        for mode in ('driver', 'sender'):
+            for k in range(1, total):
+                sync = (k + len(mems)) % 2 == 0
+                cases.append({'cfg': {'mems': mems, 'fault_at': k, 'fault_mode': mode}, 'seed': rng.randrange(1 << 30),
+                              'script': [['sync_open'] if sync else ['open'], ['sleep', 1.0],
+                                         ['sync_close'] if sync else ['close'], ['reconnect']]})
+        for k in range(1, total, 2):
+            cases.append({'cfg': {'mems': mems}, 'seed': rng.randrange(1 << 30),
+                          'script': [['open'], ['wait_packets', k], ['close'], ['reconnect']]})
+    # the application closes (or re-opens) the link from INSIDE one of its lifecycle callbacks ("all times at which the
+    # user closes the link"): the library function that delivered the callback goes on afterwards.  Not generated:
+    # close inside connection_requested (no link exists yet; the library treats it as a close that precedes the
+    # attempt) and open inside the disconnected callback of a failing link (connection_lost of the old attempt is
+    # then necessarily delivered inside the new attempt)
+    for sync in (True, False):
+        o, c_ = (['sync_open'], ['sync_close']) if sync else (['open'], ['close'])
+        for cbn in ('link_established', 'connected', 'fully_connected'):
+            for mems in ((), (1,)):
+                cases.append({'cfg': {'mems': list(mems)}, 'seed': rng.randrange(1 << 30), 'cb_actions': [[cbn, 'close']],
+                              'script': [o, ['sleep', 1.0], c_, ['reconnect']]})
+        for cbn in ('disconnected', 'connection_lost'):
+            for k in (5, 30, 52):
+                cases.append({'cfg': {'fault_at': k}, 'seed': rng.randrange(1 << 30), 'cb_actions': [[cbn, 'close']],
+                              'script': [o, ['sleep', 1.0], c_, ['reconnect']]})
+        cases.append({'cfg': {'fault_at': 30}, 'seed': rng.randrange(1 << 30), 'cb_actions': [['connection_lost', 'open']],
+                      'script': [o, ['sleep', 2.0], c_, ['reconnect']]})
+        cases.append({'cfg': {}, 'seed': rng.randrange(1 << 30), 'cb_actions': [['disconnected', 'open']],
+                      'script': [o, ['sleep', 1.0], c_, ['sleep', 2.0], c_, ['reconnect']]})
+        # (open_link from inside connection_failed while the outer open_link is still inside driver.connect() is a
+        # re-entrant open_link: not generated)
+        cases.append({'cfg': {'fault_at': 0, 'fault_mode': 'connect_sync'}, 'seed': rng.randrange(1 << 30),
+                      'cb_actions': [['connection_failed', 'close']], 'script': [o, ['sleep', 2.0], c_, ['reconnect']]})
     # link error during connect(): reported synchronously, by the driver's thread before connect() returns, or by
     # the driver thread as soon as it is scheduled
     for s in range(seeds * 2):
@@ -182,6 +218,7 @@ def tie(ctx):
     terms, idx = [], []
     skipped = 0
     overl = 0
+    outside = 0
     sigs = set()
     nontriv = 0
     for i, (c, r) in enumerate(runs):
@@ -194,7 +231,7 @@ def tie(ctx):
         if an:
             skipped += 1          # runs on which the property itself fails are handled by the oracle
             continue
-        if c02_oracle.overlapping(r['log']):
+        if c02_oracle.overlapping(r['log']) or c02_oracle.reentrant_split(r['log']):
             overl += 1            # two transition functions overlapped in time: outside the atomic model (the oracle
             continue              # still judged the run against the property text)
         evs = _model_events(c, r)
@@ -210,6 +247,9 @@ def tie(ctx):
         for i, m in zip(idx, mv):
             c, r = runs[i]
             obs = [CB_NUM[e[1]] for e in r['log'] if e[0] == 'cb']
+            if list(m) == [-1] and c.get('cb_actions'):
+                outside += 1      # an application callback entered a transition function inside open_link / inside
+                continue          # another transition: event order outside the grammar the atomic model is defined on
             if list(m) != obs:
                 dis.append({'what': 'lifecycle: model and implementation observe different callback sequences',
                             'case': c, 'model': list(m), 'impl': obs, 'log': [e[1] for e in r['log'] if e[0] != 'rx']})
@@ -220,7 +260,8 @@ def tie(ctx):
                     'distinct (config, script, observed event order) with a link error or close after link_established',
             'samples': [{'case': runs[0][0], 'log': [e[1] for e in runs[0][1]['log'] if e[0] != 'rx']}] if runs else [],
             'distribution': {'runs': len(runs), 'distinct_signatures': len(sigs), 'replayed_on_model': len(terms),
-                             'left_to_oracle': skipped, 'overlapping_transitions_not_replayed': overl},
+                             'left_to_oracle': skipped, 'overlapping_transitions_not_replayed': overl,
+                             'reentrant_outside_model_grammar': outside},
             'disagreements': dis}
 
 
